@@ -147,6 +147,7 @@ func execRtE2E(args []string) string {
 	dec := decoder.New(bytes.NewReader(dest.buf), do.options(dfac, nil)...)
 	decS := "end"
 	var seqs []string
+	var decoded []*proto.FIT
 	ns := 0
 	func() {
 		defer func() {
@@ -163,12 +164,136 @@ func execRtE2E(args []string) string {
 			for k := range fit.Messages {
 				seqs = append(seqs, fmt.Sprintf("S%d:%s", ns, dapiMesg(&fit.Messages[k])))
 			}
+			decoded = append(decoded, fit)
 			ns++
 		}
 	}()
 	out = append(out, "dec="+decS, fmt.Sprintf("ns=%d", ns))
 	out = append(out, seqs...)
+	// the last sentence of the property: the messages the decoder returned, handed to a new encoder with the same options
+	// and the real validator, then decoded again, come back the same
+	re := "-"
+	if decS == "end" && ns > 0 {
+		re = e2eReencode(decoded, arch, kvm, rest[:3], dfac, do)
+	}
+	out = append(out, "re="+re)
 	return strings.Join(out, " ")
+}
+
+// what the property compares of a decoded message (fields created by component expansion are not part of it)
+func e2eProj(m *proto.Message) string {
+	var sb strings.Builder
+	fmt.Fprintf(&sb, "M%d{", m.Num)
+	for i := range m.Fields {
+		f := &m.Fields[i]
+		if f.IsExpandedField {
+			continue
+		}
+		fmt.Fprintf(&sb, "F%d:%02x:%s;", f.Num, byte(f.BaseType), printValue(f.Value))
+	}
+	sb.WriteByte('|')
+	for i := range m.DeveloperFields {
+		d := &m.DeveloperFields[i]
+		fmt.Fprintf(&sb, "D%d.%d:%s;", d.DeveloperDataIndex, d.Num, printValue(d.Value))
+	}
+	sb.WriteByte('}')
+	return sb.String()
+}
+
+// the other form a message may come back in: its first field 253, when that is a uint32 other than the invalid value,
+// taken out and put in front under the base type the decoder re-creates it with; "" if there is no such form
+func e2eTsFirst(m *proto.Message, dfac *dapiFactory) string {
+	for i := range m.Fields {
+		f := &m.Fields[i]
+		if f.Num != proto.FieldNumTimestamp {
+			continue
+		}
+		if f.Value.Type() != proto.TypeUint32 || f.Value.Uint32() == basetype.Uint32Invalid {
+			return ""
+		}
+		var ts proto.Field
+		if dfac != nil {
+			ts = dfac.CreateField(m.Num, proto.FieldNumTimestamp)
+		} else {
+			ts = factory.StandardFactory().CreateField(m.Num, proto.FieldNumTimestamp)
+		}
+		bt := ts.BaseType
+		if ts.Name == factory.NameUnknown {
+			bt = basetype.Uint32
+		}
+		c := *m
+		c.Fields = append([]proto.Field{{FieldBase: &proto.FieldBase{Num: proto.FieldNumTimestamp, BaseType: bt}, Value: f.Value}},
+			append(append([]proto.Field(nil), m.Fields[:i]...), m.Fields[i+1:]...)...)
+		return e2eProj(&c)
+	}
+	return ""
+}
+
+func e2eReencode(decoded []*proto.FIT, arch byte, kvm map[string]string, vargs []string, dfac *dapiFactory, do dapiOpts) (res string) {
+	defer func() {
+		if recover() != nil {
+			res = "panic"
+		}
+	}()
+	mv, ok := validatorFromArgs(vargs)
+	if !ok {
+		return "bad"
+	}
+	rec := &e2eRecorder{inner: mv}
+	opts := []encoder.Option{encoder.WithMessageValidator(rec)}
+	if arch == 1 {
+		opts = append(opts, encoder.WithBigEndian())
+	}
+	opts = append(opts, encoder.WithHeaderOption(encoder.HeaderOption(atoi(kvm["h"])), byte(atoi(kvm["l"]))))
+	if pv := atoi(kvm["pv"]); pv != 0 {
+		opts = append(opts, encoder.WithProtocolVersion(proto.Version(pv)))
+	}
+	w, dest := newDest("plain")
+	enc := encoder.New(w, opts...)
+	var want [][]string
+	for i, fit := range decoded {
+		msgs := make([]proto.Message, len(fit.Messages))
+		for k := range fit.Messages {
+			msgs[k] = fit.Messages[k]
+			msgs[k].Fields = append([]proto.Field(nil), fit.Messages[k].Fields...)
+			msgs[k].DeveloperFields = append([]proto.DeveloperField(nil), fit.Messages[k].DeveloperFields...)
+		}
+		rec.kept = rec.kept[:0]
+		f2 := &proto.FIT{FileHeader: proto.FileHeader{Size: fit.FileHeader.Size, ProtocolVersion: fit.FileHeader.ProtocolVersion,
+			ProfileVersion: fit.FileHeader.ProfileVersion}, Messages: msgs}
+		if err := enc.Encode(f2); err != nil {
+			return fmt.Sprintf("%s@%d", e2eErrKind(err), i)
+		}
+		// what validation retained of the decoded messages (it only filters them: invalid values, expanded fields):
+		// each may come back as it is or (rule (e)) with its first timestamp in front
+		var ws []string
+		for k := range rec.kept {
+			ws = append(ws, e2eProj(&rec.kept[k])+"\x00"+e2eTsFirst(&rec.kept[k], dfac))
+		}
+		want = append(want, ws)
+	}
+	dec := decoder.New(bytes.NewReader(dest.buf), do.options(dfac, nil)...)
+	k := 0
+	for dec.Next() {
+		fit, err := dec.Decode()
+		if err != nil {
+			return "dec-err:" + dapiErr(err)
+		}
+		if k >= len(want) || len(fit.Messages) != len(want[k]) {
+			return fmt.Sprintf("diff@%d", k)
+		}
+		for j := range fit.Messages {
+			alt := strings.SplitN(want[k][j], "\x00", 2)
+			if got := e2eProj(&fit.Messages[j]); got != alt[0] && (alt[1] == "" || got != alt[1]) {
+				return fmt.Sprintf("diff@%d.%d", k, j)
+			}
+		}
+		k++
+	}
+	if k != len(want) {
+		return "diff@count"
+	}
+	return "same"
 }
 
 // ---------------------------------------------------------------- generator
